@@ -112,6 +112,27 @@ func (c *Ctx) newLinEnv() *linEnv {
 				return
 			}
 			e.fieldOf[st.Val] = f
+			// the value is a helper's result: what the helper returns at that position is the same quantity
+			var call *ssa.Call
+			idx := 0
+			switch x := st.Val.(type) {
+			case *ssa.Extract:
+				call, _ = x.Tuple.(*ssa.Call)
+				idx = x.Index
+			case *ssa.Call:
+				call = x
+			}
+			if call != nil {
+				if g := c.P.syncCallee(call); g != nil && c.P.allFns[g] {
+					allInstrsRaw(g, func(y ssa.Instruction) {
+						if ret, ok := y.(*ssa.Return); ok && idx < len(ret.Results) {
+							if _, isConst := ret.Results[idx].(*ssa.Const); !isConst {
+								e.fieldOf[ret.Results[idx]] = f
+							}
+						}
+					})
+				}
+			}
 		})
 	}
 	return e
@@ -778,6 +799,18 @@ func (c *Ctx) signatureClassification(rule string) {
 	refGlobals := map[*ssa.Global]string{}
 	refOfElem := func(v ssa.Value) string {
 		call, ok := v.(*ssa.Call)
+		if ok && !call.Common().IsInvoke() {
+			// reflect.TypeFor[error]() / reflect.TypeFor[context.Context]()
+			if f := call.Common().StaticCallee(); f != nil && strings.HasPrefix(calleeName(call), "reflect.TypeFor") && len(f.TypeArgs()) == 1 {
+				if isErrorType(f.TypeArgs()[0]) {
+					return "error"
+				}
+				if isNamed(f.TypeArgs()[0], "context", "Context") {
+					return "context"
+				}
+			}
+			return ""
+		}
 		if !ok || !call.Common().IsInvoke() || call.Common().Method.Name() != "Elem" {
 			return ""
 		}
